@@ -149,13 +149,33 @@ Inductive wake_case := KTimeout | KNew (frames : list (list Z * Z)) | KLate (fra
 Definition wake_of (k : wake_case) : wake :=
   match k with KTimeout => WTimeout | KNew fs => WNew (decoded fs) false | KLate fs => WNew (decoded fs) true end.
 
+(* a sequence of messages from ONE EmcyProducer into one consumer (the producer keeps no state between messages) *)
+Inductive prod_msg := PSend (code reg : Z) (data : list Z) | PReset (reg : Z) (data : list Z).
+
+Definition producer_msg (m : prod_msg) : res (list Z) :=
+  match m with PSend c r d => producer_send c r d | PReset r d => producer_reset r d end.
+
+(* message i is sent at timestamp ts + i; a refused message sends nothing *)
+Fixpoint produce_all (s : cstate) (ts : Z) (msgs : list prod_msg) : cstate :=
+  match msgs with
+  | [] => s
+  | m :: r => match producer_msg m with
+              | Ok f => produce_all (feed1 s (f, ts)) (ts + 1) r
+              | _ => produce_all s (ts + 1) r
+              end
+  end.
+
+Fixpoint produce_obs (msgs : list prod_msg) : list val :=
+  match msgs with [] => [] | m :: r => res_val VB (producer_msg m) :: produce_obs r end.
+
 Inductive emcy_case :=
 | CHist (ncb : Z) (ops : list emcy_op)
 | CProd (code reg : Z) (data : list Z)
 | CProdReset (reg : Z) (data : list Z)
 | CRound (code reg : Z) (data : list Z) (ts : Z)
 | CDesc (code : Z)
-| CWait (filt : option Z) (pre : list (list Z * Z)) (ws : list wake_case).
+| CWait (filt : option Z) (pre : list (list Z * Z)) (ws : list wake_case)
+| CProdSeq (msgs : list prod_msg) (ts : Z).
 
 Definition run_emcy (c : emcy_case) : val :=
   match c with
@@ -167,5 +187,6 @@ Definition run_emcy (c : emcy_case) : val :=
         (rbind (producer_send code reg data) (fun f =>
          rbind (on_emcy (init 1) f ts) (fun s => Ok (VL [VB f; state_val s]))))
   | CDesc code => VS (get_desc code)
+  | CProdSeq msgs ts => VL (produce_obs msgs ++ [state_val (produce_all (init 1) ts msgs)])
   | CWait filt pre ws => vopt entry_val (wait_scan filt (s_log (feed (init 0) pre)) (map wake_of ws))
   end.
